@@ -7,7 +7,7 @@
     Qubits [q0 q1 q2 : qid] and angle/float operands [a0 a1 : fexp] are universally
     quantified: any assignment of qubits to parameters, any (symbolic) angle expression. *)
 From Coq Require Import List String Bool.
-From Coq Require Floats.
+From Coq Require PrimFloat.
 From V.C20 Require Import Model Spec GenGates Proofs.
 Import ListNotations.
 Open Scope string_scope.
